@@ -13,6 +13,7 @@ import (
 	"fmt"
 	"math/big"
 	"sync"
+	"sync/atomic"
 	"time"
 
 	"github.com/btcsuite/btcd/btcec/v2"
@@ -77,6 +78,8 @@ func privObj(d *big.Int) *btcec.PrivateKey {
 	k, _ := btcec.PrivKeyFromBytes(b32(d))
 	return k
 }
+
+var signerHung atomic.Bool
 
 func runSigVerify(ctx *vrun.Ctx) error {
 	// 1. algebra: the rule table against the equations over toy groups
@@ -236,6 +239,10 @@ func ecdhCase(ctx *vrun.Ctx, c tla.Value, label string) error {
 // judgeVerify is the three-way comparison.
 func judgeVerify(ctx *vrun.Ctx, c tla.Value, want, kind string, ref, lib bool, what string, replay map[string]any) error {
 	ctx.AddEval(1)
+	if c.F("inst").Int() == 1 && c.F("keyc").Str() == "nm1" && c.F("msgc").Str() == "zero" && c.F("enc").Str() == "direct" &&
+		((c.F("scheme").Str() == "ecdsa" && c.F("mut").Str() == "key_neg") || (c.F("mut").Str() == "skipneg_k" && c.F("rpar").Str() == "odd" && c.F("ppar").Str() == "odd")) {
+		ctx.Sample(map[string]any{"spec": "SigVerify", "case": c.Go(), "expect_valid": want, "rule_kind": kind, "reference_verifier": ref, "library_verifier": lib, "triple": what})
+	}
 	if ref != (want == "true") {
 		return fmt.Errorf("sigverify: specification says %s (%s rule) but the reference verifier says %v on %s", want, kind, ref, what)
 	}
@@ -429,7 +436,28 @@ func schnorrCase(ctx *vrun.Ctx, c tla.Value, want, kind, label string) (bool, er
 		if origin == "lib.fast" || origin == "lib.auxfast" {
 			opts = append(opts, schnorr.FastSign())
 		}
-		sig, err := schnorr.Sign(privObj(d), msg, opts...)
+		type sres struct {
+			sig *schnorr.Signature
+			err error
+		}
+		if signerHung.Load() {
+			return false, nil // a signer call already failed to return; do not pile up spinning goroutines
+		}
+		ch := make(chan sres, 1)
+		go func() { // the RFC6979 path retries forever when its self-check fails
+			sg, err := schnorr.Sign(privObj(d), msg, opts...)
+			ch <- sres{sg, err}
+		}()
+		var sig *schnorr.Signature
+		var err error
+		select {
+		case r := <-ch:
+			sig, err = r.sig, r.err
+		case <-time.After(30 * time.Second):
+			signerHung.Store(true)
+			ctx.Violation("signer:"+origin+":does-not-return", fmt.Sprintf("schnorr.Sign(d=%x, m=%x) did not return within 60 s", d, msg), rep)
+			return true, nil
+		}
 		ctx.AddEval(2)
 		if err != nil {
 			ctx.Violation("signer:"+origin+":error", fmt.Sprintf("schnorr.Sign(d=%x, m=%x) fails: %v", d, msg, err), rep)
